@@ -37,12 +37,28 @@ def lane_work(lane):
         meta['detected_by_own_property_rules'] = own
         meta['also_reported_by'] = other
         meta['detected'] = bool(own)
+        # seeds that come wrapped in a refactoring: what the refactoring alone (slip corrected) raises.
+        # A rule counts as reporting the slip only with an obligation that the corrected refactoring does not raise.
+        if os.path.exists(d + 'corrected_refactoring.diff'):
+            obl = set(re.findall(r'^  rule (C\d\d\.[A-Z]\d+\s+\S+)', out, re.M))
+            sh(f'git checkout -q --detach {head} && git checkout -q -- . && git clean -fdq')
+            if sh(f'git apply {d}corrected_refactoring.diff').returncode == 0:
+                r2 = sh(f'{BIN} -all -repo {W} -verif /tmp/scratch/vlane{lane}')
+                out2 = r2.stdout + r2.stderr
+                obl2 = set(re.findall(r'^  rule (C\d\d\.[A-Z]\d+\s+\S+)', out2, re.M))
+                meta['corrected_refactoring_reported_by'] = sorted(set(x.split()[0] for x in obl2))
+                spec = sorted(set(x.split()[0] for x in obl - obl2 if x.startswith(prop)))
+                meta['own_rules_reporting_the_slip_itself'] = spec
+            sh('git checkout -q -- . && git clean -fdq')
         if r.returncode not in (0, 1):
             meta['checker_broken'] = [l for l in out.splitlines() if l.startswith('CHECK-BROKEN') or l.startswith('panic')][:3]
         else:
             meta.pop('checker_broken', None)
         json.dump(meta, open(d + 'meta.json', 'w'), indent=1)
-        out_lines.append(f"{meta['id']:9s} own={own} other={other}" + (f" BROKEN rc={r.returncode}" if r.returncode not in (0, 1) else ''))
+        extra = ''
+        if 'own_rules_reporting_the_slip_itself' in meta:
+            extra = f" slip={meta['own_rules_reporting_the_slip_itself']} refactoring_alone={meta.get('corrected_refactoring_reported_by')}"
+        out_lines.append(f"{meta['id']:9s} own={own} other={other}{extra}" + (f" BROKEN rc={r.returncode}" if r.returncode not in (0, 1) else ''))
     return out_lines
 with ThreadPoolExecutor(6) as ex:
     for lines in ex.map(lane_work, range(1, 7)):
